@@ -28,6 +28,7 @@ use crate::{
 thread_local! {
     static CUR_STRAND: Cell<u32> = const { Cell::new(0) };
     static NEXT_SAMPLE: Cell<bool> = const { Cell::new(true) };
+    static NO_SAMPLER: Cell<bool> = const { Cell::new(false) };
 }
 
 fn cur_strand() -> u32 {
@@ -45,6 +46,10 @@ pub enum Form {
     NewSpanAsync,
     ResultFn,
     PanicLvlFn,
+    /// Result-aware and with a panic level: `ok_lvl`, `err_lvl`, `panic_lvl`
+    ResultPanicLvlFn,
+    /// leveled macro with Result-aware completion: `#[emit::info_span(ok_lvl: ..)]`
+    InfoResultFn,
     GuardFn,
     Manual,
 }
@@ -322,6 +327,7 @@ pub struct World {
     pub rt: Rt,
     pub log: Shared,
     pub in_sampled_filter: bool,
+    pub no_sampler: bool,
 }
 
 impl World {
@@ -439,7 +445,7 @@ fn new_span_info(w: &World, st: &Strand, sid: u32, form: Form, exit: Exit, enabl
         exit,
         form,
         is_root,
-        in_unsampled: st.unsampled > 0 || (TP && is_root && !sampled),
+        in_unsampled: st.unsampled > 0 || (TP && is_root && !sampled && !w.no_sampler),
         cancelled: false,
         expect_name: None,
         expect_mdl: None,
@@ -525,6 +531,24 @@ async fn span_async_fn(w: &Arc<World>, st: &mut Strand, sid: u32, enabled: bool,
 
 #[emit::span(rt: &w.rt, ok_lvl: "info", err_lvl: "warn", "span {sid}", sid)]
 fn span_result_fn(w: &Arc<World>, st: &mut Strand, sid: u32, enabled: bool, body: &Arc<Vec<S>>, exit: Exit) -> Result<(), TestErr> {
+    body_sync(w, st, sid, enabled, body, exit);
+    if exit == Exit::Err {
+        return Err(TestErr);
+    }
+    Ok(())
+}
+
+#[emit::span(rt: &w.rt, ok_lvl: "info", err_lvl: "warn", panic_lvl: "debug", "span {sid}", sid)]
+fn span_result_panic_lvl_fn(w: &Arc<World>, st: &mut Strand, sid: u32, enabled: bool, body: &Arc<Vec<S>>, exit: Exit) -> Result<(), TestErr> {
+    body_sync(w, st, sid, enabled, body, exit);
+    if exit == Exit::Err {
+        return Err(TestErr);
+    }
+    Ok(())
+}
+
+#[emit::info_span(rt: &w.rt, ok_lvl: "debug", "span {sid}", sid)]
+fn span_info_result_fn(w: &Arc<World>, st: &mut Strand, sid: u32, enabled: bool, body: &Arc<Vec<S>>, exit: Exit) -> Result<(), TestErr> {
     body_sync(w, st, sid, enabled, body, exit);
     if exit == Exit::Err {
         return Err(TestErr);
@@ -726,7 +750,7 @@ fn model_enabled(st: &Strand, w: &World, sampled: bool, filter_ok: bool) -> bool
         } else if st.in_trace() {
             true
         } else {
-            sampled
+            sampled || w.no_sampler
         }
     } else {
         filter_ok
@@ -758,6 +782,17 @@ fn run_span_sync(w: &Arc<World>, st: &mut Strand, n: &S) {
             lg(&w.log).spans[ix].expect_lvl = Some(Some(lvl));
         }
         Form::PanicLvlFn => span_panic_lvl_fn(w, st, sid, enabled, body, exit),
+        Form::ResultPanicLvlFn => {
+            let r = span_result_panic_lvl_fn(w, st, sid, enabled, body, exit);
+            let lvl = if r.is_ok() { "info" } else { "warn" };
+            lg(&w.log).spans[ix].expect_lvl = Some(Some(lvl));
+        }
+        Form::InfoResultFn => {
+            let r = span_info_result_fn(w, st, sid, enabled, body, exit);
+            // ok_lvl on success; an Err keeps the macro's own level
+            let lvl = if r.is_ok() { "debug" } else { "info" };
+            lg(&w.log).spans[ix].expect_lvl = Some(Some(lvl));
+        }
         Form::GuardFn => {
             let early = ops.first() == Some(&GOp::Complete);
             let (is_enabled, completed) = span_guard_fn(w, st, sid, enabled, body, exit, early);
@@ -792,6 +827,8 @@ fn run_span_sync(w: &Arc<World>, st: &mut Strand, n: &S) {
             l.spans[ix].unwound = true;
             if l.spans[ix].form == Form::PanicLvlFn {
                 l.spans[ix].expect_lvl = Some(Some("warn"));
+            } else if l.spans[ix].form == Form::ResultPanicLvlFn {
+                l.spans[ix].expect_lvl = Some(Some("debug"));
             } else {
                 l.spans[ix].expect_lvl = Some(Some("error"));
             }
@@ -1199,8 +1236,10 @@ pub fn gen_nodes(ch: &mut Choices, cfg: &GenCfg, depth: u32, budget: &mut u32, n
             2 => {
                 *next += 1;
                 let sid = *next;
-                let form = if c05 {
-                    *ch.pick(&[Form::Manual, Form::Manual, Form::Manual, Form::SyncFn, Form::ResultFn, Form::PanicLvlFn, Form::GuardFn, Form::NewSpanSync])
+                let form = if c05 && is_async {
+                    *ch.pick(&[Form::Manual, Form::Manual, Form::Manual, Form::SyncFn, Form::ResultFn, Form::PanicLvlFn, Form::ResultPanicLvlFn, Form::InfoResultFn, Form::GuardFn, Form::NewSpanSync, Form::AsyncFn, Form::AsyncFn, Form::NewSpanAsync])
+                } else if c05 {
+                    *ch.pick(&[Form::Manual, Form::Manual, Form::Manual, Form::SyncFn, Form::ResultFn, Form::PanicLvlFn, Form::ResultPanicLvlFn, Form::InfoResultFn, Form::GuardFn, Form::NewSpanSync])
                 } else if is_async {
                     *ch.pick(&[Form::AsyncFn, Form::AsyncFn, Form::NewSpanAsync, Form::SyncFn, Form::NewSpanSync, Form::ResultFn])
                 } else {
@@ -1214,7 +1253,7 @@ pub fn gen_nodes(ch: &mut Choices, cfg: &GenCfg, depth: u32, budget: &mut u32, n
                 let exit = match (form, exit) {
                     (Form::Manual, _) => Exit::Fall,
                     (Form::AsyncFn | Form::NewSpanAsync, Exit::Panic) => Exit::Fall,
-                    (Form::ResultFn, e) => e,
+                    (Form::ResultFn | Form::ResultPanicLvlFn | Form::InfoResultFn, e) => e,
                     (_, Exit::Err) => Exit::Fall,
                     (_, e) => e,
                 };
@@ -1310,10 +1349,13 @@ pub fn leaks(w: &World) -> Vec<String> {
 pub fn run(ch: &mut Choices, ctx: &RunCtx, focus: &'static str) -> Outcome {
     let mut out = Outcome::default();
     let n_lanes = 1 + ch.choose(3) as usize;
-    let n_tasks = if focus == "C05" { 1 } else { 1 + ch.choose(3) as usize };
+    let n_tasks = if focus == "C05" { 1 + ch.choose(2) as usize } else { 1 + ch.choose(3) as usize };
     let cancel_enabled = ch.chance(1, 5);
     let sticky = ch.choose(4);
     let in_sampled_filter = TP && ch.chance(1, 2);
+    // a pipeline without a sampler (what `emit_traceparent::setup()` installs): every new trace is sampled
+    let no_sampler = TP && ch.chance(1, 4);
+    NO_SAMPLER.with(|c| c.set(no_sampler));
     // clock script: offsets from the base; forward, equal, backward, unavailable
     let clock_mode = if focus == "C05" { ch.weighted(&[3, 2, 2, 2]) } else { 0 };
     let mut script = Vec::new();
@@ -1340,11 +1382,13 @@ pub fn run(ch: &mut Choices, ctx: &RunCtx, focus: &'static str) -> Outcome {
     let mut programs = Vec::new();
     for _ in 0..n_tasks {
         let mut budget = cfg.budget;
-        programs.push(gen_nodes(ch, &cfg, 0, &mut budget, &mut next, focus != "C05"));
+        programs.push(gen_nodes(ch, &cfg, 0, &mut budget, &mut next, true));
     }
 
     let log: Shared = Arc::new(Mutex::new(Log::default()));
-    let filter: TheFilter = make_filter(&log, in_sampled_filter);
+    let filter: TheFilter = make_filter(&log, in_sampled_filter, no_sampler);
+    let no_sampler_flag = Arc::new(std::sync::atomic::AtomicBool::new(no_sampler));
+    let _ = &no_sampler_flag;
     let w = Arc::new(World {
         rt: emit::runtime::Runtime::build(
             Recorder { log: log.clone() },
@@ -1358,9 +1402,10 @@ pub fn run(ch: &mut Choices, ctx: &RunCtx, focus: &'static str) -> Outcome {
         ),
         log: log.clone(),
         in_sampled_filter,
+        no_sampler,
     });
     w.log(format!(
-        "config: runtime={} lanes={n_lanes} tasks={n_tasks} cancel={cancel_enabled} sticky={sticky} clock_mode={clock_mode} in_sampled_trace_filter={in_sampled_filter}",
+        "config: runtime={} lanes={n_lanes} tasks={n_tasks} cancel={cancel_enabled} sticky={sticky} clock_mode={clock_mode} in_sampled_trace_filter={in_sampled_filter} no_sampler={no_sampler}",
         if TP { "traceparent" } else { "plain" }
     ));
     if ctx.want_trace {
@@ -1770,7 +1815,7 @@ fn posthoc(w: &World, focus: &'static str) {
                     .iter()
                     .filter(|i| matches!(i, Item::Sampler { strand, .. } if *strand == s.strand))
                     .count();
-                let want = if s.is_root { 1 } else { 0 };
+                let want = if s.is_root && !w.no_sampler { 1 } else { 0 };
                 if calls != want {
                     v.push((
                         "C18",
